@@ -1,4 +1,98 @@
 package main
 
-// secMatrix is filled in with the C30 check.
-func secMatrix(seed uint64) { emit(map[string]any{"t": "sec", "todo": true}) }
+import (
+	"context"
+	"fmt"
+	"sort"
+	"strings"
+	"time"
+
+	"github.com/gopcua/opcua/server"
+	"github.com/gopcua/opcua/ua"
+	"github.com/gopcua/opcua/uapolicy"
+	"github.com/gopcua/opcua/uasc"
+)
+
+// policyIndex numbers the supported policies: None = 0, the others by sorted URI from 1.
+func policyIndex() map[string]int {
+	uris := uapolicy.SupportedPolicies()
+	sort.Strings(uris)
+	m := map[string]int{ua.SecurityPolicyURINone: 0}
+	i := 1
+	for _, u := range uris {
+		if u != ua.SecurityPolicyURINone {
+			m[u] = i
+			i++
+		}
+	}
+	return m
+}
+
+func uriOf(name string) string {
+	if strings.HasPrefix(name, "http://") {
+		return name
+	}
+	return "http://opcfoundation.org/UA/SecurityPolicy#" + name
+}
+
+// secMatrix: server configurations (subsets of policy/mode pairs, with and without a key) x client policy/mode.
+func secMatrix(seed uint64) {
+	idx := policyIndex()
+	scert, skey := selfSigned("urn:verif:server")
+	ccert, ckey := selfSigned("urn:verif:client")
+	type cfg struct {
+		name  string
+		pairs []secPair
+		key   bool
+	}
+	cfgs := []cfg{
+		{"none-only", []secPair{{"None", 1}}, true},
+		{"none-only-nokey", []secPair{{"None", 1}}, false},
+		{"b256s256-signenc-only", []secPair{{"Basic256Sha256", 3}}, true},
+		{"mixed", []secPair{{"None", 1}, {"Basic256Sha256", 2}, {"Basic256Sha256", 3}}, true},
+		{"nothing-enabled", nil, true},
+		{"aes128-signenc-only", []secPair{{"Aes128_Sha256_RsaOaep", 3}}, true},
+	}
+	clients := []secPair{{"None", 1}, {"Basic256Sha256", 2}, {"Basic256Sha256", 3}, {"Basic128Rsa15", 3}, {"Aes128_Sha256_RsaOaep", 3}, {"Aes256_Sha256_RsaPss", 2}}
+	for _, c := range cfgs {
+		var opts []server.Option
+		for _, p := range c.pairs {
+			opts = append(opts, server.EnableSecurity(p.Policy, p.Mode))
+		}
+		opts = append(opts, server.EnableAuthMode(ua.UserTokenTypeAnonymous))
+		if c.key {
+			opts = append(opts, server.Certificate(scert), server.PrivateKey(skey))
+		}
+		s := startServer(opts...)
+		var enabled, advertised [][2]int
+		for _, e := range s.srv.VerifEnabledSecurity() {
+			m := map[string]int{"MessageSecurityModeNone": 1, "MessageSecurityModeSign": 2, "MessageSecurityModeSignAndEncrypt": 3}[e[1]]
+			enabled = append(enabled, [2]int{idx[e[0]], m})
+		}
+		for _, ep := range s.srv.Endpoints() {
+			advertised = append(advertised, [2]int{idx[ep.SecurityPolicyURI], int(ep.SecurityMode)})
+		}
+		for _, cl := range clients {
+			ccfg := &uasc.Config{SecurityPolicyURI: uriOf(cl.Policy), SecurityMode: cl.Mode, Lifetime: 3600000, RequestTimeout: 3 * time.Second}
+			if cl.Policy != "None" {
+				ccfg.Certificate, ccfg.LocalKey, ccfg.RemoteCertificate = ccert, ckey, scert
+				ccfg.Thumbprint = uapolicy.Thumbprint(scert)
+			}
+			o := map[string]any{"t": "sec", "config": c.name, "enabled": enabled, "advertised": advertised, "has_key": c.key,
+				"client": [2]int{idx[uriOf(cl.Policy)], int(cl.Mode)}, "client_name": fmt.Sprintf("%s/%d", cl.Policy, cl.Mode), "urls": len(s.srv.URLs())}
+			rc, err := dialRaw(context.Background(), s.url, ccfg)
+			o["opened"] = err == nil
+			if err != nil {
+				o["err"] = err.Error()
+			} else {
+				// the channel is usable: discovery needs no session
+				_, err := rc.call(&ua.GetEndpointsRequest{EndpointURL: s.url}, nil, 3*time.Second)
+				o["served"] = err == nil
+				rc.close()
+			}
+			emit(o)
+		}
+		s.srv.Close()
+	}
+	emit(map[string]any{"t": "done"})
+}
